@@ -240,7 +240,7 @@ theorem inv_step_nopiece (cfg : Cfg) (hser : cfg.serialised = true) (s s' : St) 
       · rename_i hg
         injection hs with hs; subst hs
         have hsent : ∀ x, (setPc (if (cfg.coalesce && !ok) = true then setMany s.pc s.todo (.wrote 0 false) else s.pc) w
-            (.wrote off ok) x).sent = (s.pc x).sent := by
+            (.wrote off (ok || (cfg.coalesce && off == cfg.lens w))) x).sent = (s.pc x).sent := by
           intro x
           by_cases hx : x = w
           · subst hx; simp [setPc_same, hw, Pc.sent]
